@@ -36,7 +36,15 @@ pub fn gen(rng: &mut Rng, _index: u64) -> String {
             // exactness of any centre / extent arithmetic is lost here, the predicates must not depend on it
             let d = |rng: &mut Rng| Coord { x: rng.range(-30, 30) as f64 / 10.0, y: rng.range(-30, 30) as f64 / 10.0 };
             let (a, b, c2) = (d(rng), d(rng), d(rng));
-            match rng.below(4) {
+            match rng.below(6) {
+                4 | 5 => {
+                    // an axis-parallel stem meeting (or just crossing) an oblique decimal segment: near-T junctions
+                    let t = rng.range(1, 9) as f64 / 10.0;
+                    let m = Coord { x: a.x + t * (b.x - a.x), y: a.y + t * (b.y - a.y) };
+                    let far = if rng.chance(1, 2) { Coord { x: m.x, y: m.y + rng.range(-30, 30) as f64 / 10.0 } } else { Coord { x: m.x + rng.range(-30, 30) as f64 / 10.0, y: m.y } };
+                    let near = if rng.chance(1, 2) { m } else if far.x == m.x { Coord { x: m.x, y: m.y - (far.y - m.y) * 1e-3 } } else { Coord { x: m.x - (far.x - m.x) * 1e-3, y: m.y } };
+                    p1 = a; p2 = b; q1 = near; q2 = far;
+                }
                 0 => { p1 = a; p2 = b; q1 = a; q2 = c2; }
                 1 => { p1 = a; p2 = b; q1 = b; q2 = c2; }
                 2 => { p1 = b; p2 = a; q1 = c2; q2 = a; }
